@@ -100,6 +100,8 @@ Definition content_decode (content : bytes) (encoding indent line_endings : opti
       match split_lines content newline true with
       | Err e => DExc e
       | Ok lines =>
+        (* the raw content must itself end with the newline (checked before indentation is stripped) *)
+        if negb (bends newline content) then DParseBody else
         let content1 :=
           match indent with
           | Some (VInt z) =>
